@@ -162,7 +162,7 @@ class Proxy(Part):
         return st.builds(
             lambda lines, last_nl, cuts, flushes, route: {"lines": lines, "final_newline": last_nl, "cuts": cuts, "flushes": flushes, "route": route},
             st.lists(line, min_size=1, max_size=6), st.booleans(),
-            st.lists(st.integers(0, 400), max_size=10), st.lists(st.integers(0, 400), max_size=4), st.sampled_from(["proxy", "proxy", "live"]),
+            st.lists(st.integers(0, 400), max_size=10), st.lists(st.integers(0, 400), max_size=4), st.sampled_from(["proxy", "proxy", "live", "live-stderr"]),
         )
 
     def check(self, spec, ctx):
@@ -232,7 +232,10 @@ class Proxy(Part):
             old_out, old_err = sys.stdout, sys.stderr
             try:
                 with Live(RenderGroup(), console=con, auto_refresh=False, redirect_stdout=True, redirect_stderr=True, transient=False):
-                    drive(lambda s: sys.stdout.write(s), lambda: sys.stdout.flush())
+                    if spec["route"] == "live":
+                        drive(lambda s: sys.stdout.write(s), lambda: sys.stdout.flush())
+                    else:
+                        drive(lambda s: sys.stderr.write(s), lambda: sys.stderr.flush())
             finally:
                 sys.stdout, sys.stderr = old_out, old_err
         out = f.getvalue()
@@ -246,7 +249,7 @@ class Proxy(Part):
             ctx.violation("stream", "C19/proxy/malformed", "console output is not a well-formed stream: %s; %r" % (e, out[:300]))
             return
         want = [e for e in want if e[0] == "ch"]
-        if spec["route"] == "live":
+        if spec["route"].startswith("live"):
             want.append(("ch", "\n", frozenset(), SGR.DEFAULT, SGR.DEFAULT, None))  # Live.stop() ends the display with its own new line
         got = [e for e in got if e[0] == "ch"]
         gs = "".join(e[1] for e in got)
